@@ -961,3 +961,105 @@ func (c *Ctx) rulesR5settle() {
 		c.undecided("C06.settle: no Matched/Total comparison found in ProcessWhen")
 	}
 }
+
+// rulesR5hist2: C17.cfg, C17.sync
+func (c *Ctx) rulesR5hist2() {
+	c.rule("C17.cfg", "every history backend hands NewBaseMemory the config it normalised (the local copy whose TrackedStates received the allow-lists and was parsed), not the caller's raw config: IsTracked / Index1 / ValidateQuery of the base memory must speak about the same state list as the stored records, as they do in the in-memory backend")
+	c.rule("C17.sync", "writeDb forks the batch write only when it is called from the tracer's flush path (rLocked): called from Sync it writes in the caller's goroutine, so that every tracked transition is queryable when Sync() returns")
+	fTS := c.field(ph, "BaseConfig", "TrackedStates")
+	nb := c.fnOpt(ph + ":NewBaseMemory")
+	n := 0
+	if fTS != nil && nb != nil {
+		for _, f := range c.Funcs {
+			if f.Parent() != nil || f.Name() != "NewMemory" || f.Pkg == nil {
+				continue
+			}
+			rel := relPkg(f.Pkg.Pkg.Path())
+			if rel != ph && !strings.HasPrefix(rel, ph+"/") {
+				continue
+			}
+			// the normalised local: an Alloc with a store into its TrackedStates
+			var norm []*ssa.Alloc
+			rootAlloc := func(v ssa.Value) *ssa.Alloc {
+				for d := 0; d < 6; d++ {
+					switch x := v.(type) {
+					case *ssa.Alloc:
+						return x
+					case *ssa.FieldAddr:
+						v = x.X
+					case *ssa.UnOp:
+						v = x.X
+					default:
+						return nil
+					}
+				}
+				return nil
+			}
+			for _, w := range writesOfFieldIn(f, fTS) {
+				if st, ok := w.Instr.(*ssa.Store); ok {
+					if al := rootAlloc(st.Addr); al != nil {
+						norm = append(norm, al)
+					}
+				}
+			}
+			for _, s := range c.sitesIn(f, funcKey(nb)) {
+				n++
+				arg := s.Common().Args[2]
+				al := rootAlloc(arg)
+				good := false
+				for _, x := range norm {
+					if x == al {
+						good = true
+					}
+				}
+				c.check(good && len(norm) > 0, "C17.cfg", funcKey(f)+": NewBaseMemory receives the normalised config", s.Pos(),
+					"the config passed to NewBaseMemory is "+render(arg)+", not the local copy whose TrackedStates was extended and parsed")
+			}
+		}
+	}
+	if n < 4 {
+		c.undecided(fmt.Sprintf("C17.cfg: only %d NewBaseMemory call sites found in the history backends (expected 4)", n))
+	}
+	k := 0
+	for _, f := range c.Funcs {
+		if f.Parent() != nil || f.Name() != "writeDb" || f.Pkg == nil || len(f.Params) < 2 {
+			continue
+		}
+		rel := relPkg(f.Pkg.Pkg.Path())
+		if !strings.HasPrefix(rel, ph+"/") {
+			continue
+		}
+		p := f.Params[1]
+		for _, b := range f.Blocks {
+			for _, ins := range b.Instrs {
+				if _, ok := ins.(*ssa.Go); !ok {
+					continue
+				}
+				k++
+				good := false
+				for _, g0 := range guardsOf(b) {
+					g := expandGuard(g0)[0]
+					isP := g.Cond == ssa.Value(p)
+					if u, ok := g.Cond.(*ssa.UnOp); ok && u.Op == token.MUL {
+						// the parameter lives in a cell because a closure captures it
+						if al, ok := u.X.(*ssa.Alloc); ok && al.Referrers() != nil {
+							for _, r := range *al.Referrers() {
+								if st, ok := r.(*ssa.Store); ok && st.Addr == ssa.Value(al) && st.Val == ssa.Value(p) {
+									isP = true
+								}
+							}
+						}
+					}
+					if isP && g.Pol {
+						good = true
+					}
+				}
+				c.check(good, "C17.sync", fmt.Sprintf("%s: the write is forked only under rLocked", funcKey(f)), ins.Pos(),
+					"the batch write is started with `go` also when writeDb is called from Sync: Sync returns before the records are stored")
+			}
+		}
+	}
+	if k < 3 {
+		c.undecided(fmt.Sprintf("C17.sync: only %d forked writes found in the writeDb functions (expected 3)", k))
+	}
+}
